@@ -3,6 +3,7 @@ import Klepto.Driver.Keys
 import Klepto.Driver.Round
 import Klepto.Driver.Backend
 import Klepto.Driver.FS
+import Klepto.Driver.Sched
 /-! the driver loop: one JSON object per input line, one JSON object per output line.
 A line with `"op":"cfg"` starts a new trace of the suite named in its `"suite"` field. -/
 namespace Klepto.Driver
@@ -63,7 +64,7 @@ def stepLine (st : DState) (line : String) : DState × Json :=
         | .ok o => (st, o)
         | .error e => (st, badOp e)
       | .fs =>
-        match fsStep j with
+        match (if (strField j "op").toOption == some "sched" then schedStep j else fsStep j) with
         | .ok o => (st, o)
         | .error e => (st, badOp e)
       | .backend d =>
